@@ -15,7 +15,9 @@ EXPLANATION = (
   "JSON-shape abstract interpretation of every migration: each operation applied to the result of "
   "json.loads/safe_parse that needs a particular shape (method call, subscript, iteration, "
   "membership, arithmetic, use as a hashable key) sits under an isinstance/None/truthiness guard "
-  "that establishes the shape, or inside a try catching Exception (R2). Not decided: that the "
+  "that establishes the shape, or inside a try catching Exception (R2); that the interpreter the "
+  "migrations run on (TableDataSet) keeps no state computed from a table's row ids that a "
+  "row-changing action method fails to refresh (R3). Not decided: that the "
   "resulting metadata equals the current schema (the baseline's test_migrations runs the chain on "
   "an empty document).")
 
@@ -51,6 +53,7 @@ def check(run, repo, tier):
   migs = _migrations(w)
   r1_chain(run, w, migs)
   r2_shapes(run, w, migs)
+  r3_interpreter_state(run, w)
 
 
 def _is_apply(r, n, e, p):
@@ -236,6 +239,120 @@ def r2_shapes(run, w, migs):
          "invalid JSON text yields an empty object instead of an exception", ok, fi=sp.fi)
 
 
+# ------------------------------------------------------------------------------------------- R3
+ROW_MUTATORS = ("append", "extend", "insert", "remove", "pop", "clear", "sort", "reverse")
+DICT_WRITERS = ("pop", "clear", "update", "setdefault", "popitem", "__setitem__", "__delitem__")
+
+
+def _self_attr(r, e, nid):
+  """Name X when e (resolved at node nid) is rooted at self.X (self.X, self.X[k], self.X[k].a ...)."""
+  e = r.expand(e, nid)
+  while isinstance(e, (ast.Subscript, ast.Attribute, ast.Call)):
+    if isinstance(e, ast.Attribute) and isinstance(e.value, ast.Name) and e.value.id == "self":
+      return e.attr
+    e = e.func if isinstance(e, ast.Call) else e.value
+  return None
+
+
+def _is_row_ids(r, e, nid):
+  e = r.expand(e, nid)
+  return isinstance(e, ast.Attribute) and e.attr == "row_ids"
+
+
+def r3_interpreter_state(run, w):
+  R3 = run.rule("C25-R3", "the migrations' interpreter (TableDataSet) keeps no state derived from "
+                "a table's row ids unless every method that changes the row ids refreshes it",
+                floor=2)
+  ci = w.repo.cls("table_data_set.TableDataSet")
+  holders = set()       # attributes through which the row id lists are reached
+  mutators = {}         # method -> [cfg node ids that change some table's row id list]
+  writes = {}           # attribute -> {method: [node ids writing / invalidating it]}
+  derived = {}          # attribute -> (method, node) of a write whose value depends on row ids
+  meths = {}
+  for name, fi in sorted(ci.methods.items()):
+    fn = ifn(w, fi.qualname)
+    r = res_of(w, fn)
+    meths[name] = (fn, r)
+    for n in r.cfg.nodes:
+      st = n.stmt
+      if st is None:
+        continue
+      targets, value = [], None
+      if n.kind == "stmt" and isinstance(st, ast.Assign):
+        targets, value = list(st.targets), st.value
+      elif n.kind == "stmt" and isinstance(st, (ast.AugAssign, ast.AnnAssign)):
+        targets, value = [st.target], st.value
+      elif n.kind == "stmt" and isinstance(st, ast.Delete):
+        targets = list(st.targets)
+      flat = []
+      for t in targets:
+        flat += list(t.elts) if isinstance(t, (ast.Tuple, ast.List)) else [t]
+      for t in flat:
+        base = t.value if isinstance(t, ast.Subscript) else t
+        # <table>.row_ids[...] = / del <table>.row_ids[...] / <table>.row_ids = ...
+        if (isinstance(t, ast.Subscript) and _is_row_ids(r, t.value, n.id)) or \
+            (isinstance(t, ast.Attribute) and t.attr == "row_ids"):
+          h = _self_attr(r, t, n.id)
+          if h:
+            holders.add(h)
+          mutators.setdefault(name, []).append(n.id)
+        x = _self_attr(r, t, n.id) if isinstance(t, (ast.Subscript, ast.Attribute)) else None
+        if x and name != "__init__":
+          writes.setdefault(x, {}).setdefault(name, []).append(n.id)
+          if value is not None and any(isinstance(y, ast.Attribute) and y.attr == "row_ids"
+                                       for y in ast.walk(r.expand(value, n.id))):
+            derived.setdefault(x, (name, st))
+      for c in calls_in(n.exprs):
+        f = c.func
+        if not isinstance(f, ast.Attribute):
+          continue
+        if f.attr in ROW_MUTATORS and _is_row_ids(r, f.value, n.id):
+          h = _self_attr(r, f.value, n.id)
+          if h:
+            holders.add(h)
+          mutators.setdefault(name, []).append(n.id)
+        if f.attr in DICT_WRITERS and name != "__init__":
+          x = _self_attr(r, f.value, n.id)
+          if x and r.norm(f.value, n.id) == "self." + x:
+            writes.setdefault(x, {}).setdefault(name, []).append(n.id)
+            if any(isinstance(y, ast.Attribute) and y.attr == "row_ids"
+                   for a in list(c.args) + [k.value for k in c.keywords]
+                   for y in ast.walk(r.expand(a, n.id))):
+              derived.setdefault(x, (name, c))
+  if not holders:
+    raise AnalysisError("TableDataSet: no method changing a table's row_ids found")
+  # removing / replacing / renaming a whole table changes its row ids too
+  for h in holders:
+    for name, nodes in writes.get(h, {}).items():
+      mutators.setdefault(name, [])
+      mutators[name] += [x for x in nodes if x not in mutators[name]]
+  if len(mutators) < 4:
+    raise AnalysisError("TableDataSet: fewer than 4 row-changing methods found (%s)"
+                        % ", ".join(sorted(mutators)))
+  run.extra["tabledataset_row_changing_methods"] = sorted(mutators)
+  attrs = sorted(set(writes) | holders)
+  for x in attrs:
+    if x in holders:
+      run.ob(R3, ci.qualname, "self.%s" % x, "holds the tables themselves (primary state)", True,
+             nontrivial=False)
+      continue
+    if x not in derived:
+      run.ob(R3, ci.qualname, "self.%s" % x, "state that does not depend on row ids", True,
+             nontrivial=False)
+      continue
+    src = derived[x]
+    for name in sorted(mutators):
+      fn, r = meths[name]
+      ws = set(writes.get(x, {}).get(name, []))
+      ok = bool(ws) and all(r.cfg.dominated_by(m, ws) or r.cfg.postdominated_by(m, ws)
+                            for m in mutators[name])
+      run.ob(R3, fn.qualname, "self.%s refreshed when the row ids change" % x,
+             "a value remembered from a table's row ids (set in %s) is dropped or rebuilt by "
+             "every method that adds, removes or replaces rows or tables" % src[0], ok,
+             witness=None if ok else "self.%s keeps what was computed from the old row ids; the "
+             "next action that uses it works on stale positions" % x, fi=fn.fi)
+
+
 M = "sandbox/grist/migrations.py"
 VARIANTS = [
   ("m15-truthy-guard", M, "    if isinstance(filter_spec, dict) and str(f.colRef) in filter_spec:",
@@ -264,6 +381,12 @@ VARIANTS = [
    "  for version in range(doc_version + 1, schema.SCHEMA_VERSION):", "C25-R1"),
   ("schema-version-bumped-without-migration", "sandbox/grist/schema.py", "SCHEMA_VERSION = 46", "SCHEMA_VERSION = 47", "C25-R1"),
   ("duplicate-version", M, "@migration(schema_version=46)", "@migration(schema_version=45)", "C25-R1"),
+  ("row-index-memoised", "sandbox/grist/table_data_set.py",
+   "    rowid_map = {r:i for i, r in enumerate(table_data.row_ids)}\n",
+   "    cache = self.__dict__.setdefault('_row_index', {})\n"
+   "    rowid_map = cache.get(table_id)\n"
+   "    if rowid_map is None:\n"
+   "      rowid_map = self._row_index[table_id] = {r:i for i, r in enumerate(table_data.row_ids)}\n", "C25-R3"),
   ("returns-fresh-list", M, "  return migration_actions\n", "  return list(all_migrations)\n", "C25-R1"),
   ("stamp-only-when-upgrading", M, """  migration_actions.append(actions.UpdateRecord('_grist_DocInfo', 1, {
     'schemaVersion': schema.SCHEMA_VERSION
